@@ -1,6 +1,6 @@
 (* Properties_C18.v — C18: write-progress notifications count body bytes only. *)
 From Coq Require Import String List ZArith.
-From QH Require Import Bytes SocketM SockProofs.
+From QH Require Import Bytes SocketM SockProofs SockSpecProofs.
 Local Open Scope Z_scope.
 
 (* After the header block (H bytes) has gone out, for EVERY list of acknowledgements (sizes >= 0)
@@ -33,3 +33,15 @@ Example C18_nonvacuous :
                      {| on_headers := fun _ _ => nil; on_ready := nil; on_finished := nil; hdr_after := false |}
                      0 (fst (write_headers s)) (Ack 18 :: App (AWrite (B "hello"%string)) :: Ack 1 :: Ack 5 :: nil))) = 5.
 Proof. vm_compute. repeat split. Qed.
+
+(* a listener that subscribes late - after part of the response, possibly only part of the header block, has been
+   acknowledged - hears over EVERY later schedule exactly the body bytes acknowledged from then on *)
+Theorem C18_late_listener : forall e p s ops1 ops2 k,
+  Forall ack_op ops1 -> Forall ack_op ops2 -> constructed s = true ->
+  let s0 := fst (write_headers s) in
+  let H := blen (response_head (code s) (reason s) (rh s)) in
+  let r1 := run_ops_from e p k s0 ops1 in
+  let r2 := run_ops_from e p (k + Z.of_nat (List.length ops1)) (fst r1) ops2 in
+  written_sum (snd r2) = Z.max 0 (acks_sum ops1 + acks_sum ops2 - H) - Z.max 0 (acks_sum ops1 - H).
+Proof. exact late_listener_counts_body_only. Qed.
+Print Assumptions C18_late_listener.
